@@ -21,7 +21,8 @@ RULE = ("Hypothesis generates layout trees (struct / union / array / flexible wi
         "at every path; from_bits(raw).as_bits()==raw and Const.cast(const(from_bits(raw)))==raw; in simulation "
         "ctx.get(view[path]) == slice of raw == from_bits(raw)[path] at every path incl. array slices and dynamic "
         "indices; assignment through view[path] by ctx.set, by a combinational and by a clocked statement changes "
-        "exactly that field's bits; Struct/Union classes with field defaults and init overrides. enums: shaped "
+        "exactly that field's bits, and the same reads and combinational writes are repeated on the emitted RTLIL "
+        "executed by the independent evaluator (synthesis leg); Struct/Union classes with field defaults and init overrides. enums: shaped "
         "Enum/IntEnum/Flag/IntFlag classes with generated members: const/from_bits round trip, Const.cast value, "
         "FlagView | & ^ ~ (view op view, view op member, member op view) read back in simulation == Python enum.Flag. "
         "Non-trivial: nesting >=2, or a signed/enum field, or overlapping flexible fields, or a dynamic array index; "
@@ -477,6 +478,54 @@ def layout_body(ctx, case):
         sim.run()
         if fail:
             raise fail[0]
+        # ---- synthesis: the same view reads / writes in the emitted RTLIL, executed by the independent evaluator
+        if wr or ps:
+            from amaranth.hdl import Fragment
+            from amaranth.back import rtlil
+            from vlib import rtlil_read as RR, rtlil_eval as RE
+            m2 = Module()
+            v2 = Signal(lay, name="v2")
+            bin2 = Signal(w, name="bin2")
+            m2.d.comb += Value.cast(v2).eq(bin2)
+            pd = {"bin2": (bin2, None), "v2": (Value.cast(v2), None)}
+            ctl = []
+            for j, (path, f, off, base, val, vin, sel) in enumerate(wr):
+                vin2 = Signal(width(f), name=f"vin{j}"); sel2 = Signal(name=f"sel{j}")
+                with m2.If(sel2):
+                    m2.d.comb += follow(v2, path).eq(vin2)
+                pd[f"vin{j}"] = (vin2, None); pd[f"sel{j}"] = (sel2, None)
+                ctl.append((f"vin{j}", f"sel{j}"))
+            rd = []
+            for k, (path, f, off) in enumerate(ps[:6]):
+                o = Signal(max(width(f), 0), name=f"fld{k}")
+                m2.d.comb += o.eq(Value.cast(follow(v2, path)))
+                pd[f"fld{k}"] = (o, None)
+                rd.append((f"fld{k}", f, off))
+            text, _ = rtlil.convert_fragment(Fragment.get(m2, None), ports=pd, name="top")
+            ev = RE.Evaluator(RR.parse(text))
+            def rset(upd):
+                upd = {"\\" + k_: v_ for k_, v_ in upd.items() if "\\" + k_ in ev.inputs}
+                if upd:
+                    ev.set_inputs(upd)
+            rset({n_: 0 for n_ in pd})
+            for raw in raws[:8]:
+                rset({"bin2": raw})
+                for name, f, off in rd:
+                    if ("\\" + name,) in ev.wires:
+                        rv, rx = ev.get(("\\" + name,))
+                        exp = (raw >> off) & ((1 << width(f)) - 1)
+                        if (rv ^ exp) & ~rx:
+                            raise Mismatch("view-read-in-rtlil", raw=raw, field_offset=off, field_width=width(f), expected=exp, actual=rv)
+            for (vn, sn), (path, f, off, base, val, vin, sel) in zip(ctl, wr):
+                rset({"bin2": base, vn: val, sn: 1})
+                rv, rx = ev.get(("\\v2",)) if ("\\v2",) in ev.wires else (None, 0)
+                fw = width(f)
+                mask = ((1 << fw) - 1) << off
+                exp = (base & ~mask) | (val << off)
+                if rv is not None and (rv ^ exp) & ~rx:
+                    raise Mismatch("view-write-in-rtlil", path=list(path), base=base, value=val, expected=exp, actual=rv)
+                rset({sn: 0})
+            ctx.tally("lay:rtlil-leg")
     keys = ["lay:" + d[0], "lay:depth%d" % min(depth_of(d), 3)]
     if interesting(d): keys.append("lay:signed-enum-or-overlap")
     if dyn is not None: keys.append("lay:dynamic-index")
@@ -711,6 +760,6 @@ def parts(tier):
 
 REQUIRED = ["lay:struct", "lay:union", "lay:array", "lay:flex", "lay:depth2", "lay:signed-enum-or-overlap",
             "lay:dynamic-index", "lay:write-through-view", "lay:enum-field", "lay:all-patterns",
-            "lay:const-generated-initialiser", "lay:const-hdl-const-initialiser", "cls:struct", "cls:union",
+            "lay:const-generated-initialiser", "lay:const-hdl-const-initialiser", "lay:rtlil-leg", "cls:struct", "cls:union",
             "cls:defaults", "cls:init-override", "enum:Enum", "enum:IntEnum", "enum:Flag", "enum:IntFlag",
             "enum:flag-ops", "enum:flag-multibit-with-unnamed-bit"]
